@@ -1,10 +1,12 @@
-// The token-tree alphabet shared by the C16 wrapper, its oracle and its validator.
+// The token-tree alphabet shared by the C16 / C18 wrapper, its oracle and its validator.
 //
 // The scanner's real input is a sequence of *token trees* (proc_macro2::TokenTree), so that is the symbolic input: an array
-// of `Tt` descriptors.  A descriptor is valid when it is one of the kinds below; a sequence is valid (i.e. it is what
-// proc_macro2 produces for some source text, within the alphabet) when additionally every `Joint` punct starts one of the
-// two-character operators of JOINT_PAIRS (`::` `||` `==` `->` `>>`) whose second character is `Alone`.
-// `render` writes the source text of a valid sequence: token trees are separated by one space except after a Joint punct.
+// of `Tt` descriptors.  Two domains:
+//  * `any_seq`   - every sequence of well-formed descriptors, whatever the spacing (a token stream handed over by another macro
+//                  can carry any spacing; this is what totality, C18, quantifies over), including the `'` punct of a lifetime;
+//  * `lexer_seq` - the sequences the lexer produces from source text: a punct can be Joint only when the next token tree is a
+//                  punct too (C16 quantifies over these: argument lists as they are written), no `'`.
+// `render` writes the source text of a lexer sequence: token trees are separated by one space except after a Joint punct.
 
 /// token-tree kinds
 pub const K_IDENT: u8 = 0;
@@ -24,15 +26,14 @@ pub struct Tt {
 }
 pub const TT0: Tt = Tt { kind: 0, ch: 0, joint: false, keyword: false };
 
-/// punctuation characters of the alphabet
+/// punctuation characters of the alphabet (`'` only in `any_seq`)
 pub const PUNCTS: [u8; 10] = *b",<>:|=-&.!";
-/// two-character operators: (first char, Joint), (second char, Alone)
-pub const JOINT_PAIRS: [(u8, u8); 5] = [(b':', b':'), (b'|', b'|'), (b'=', b'='), (b'-', b'>'), (b'>', b'>')];
+pub const QUOTE: u8 = b'\'';
 /// group delimiters of the alphabet; the content is fixed per delimiter (the scanner never looks inside a group)
 pub const GROUPS: [u8; 3] = *b"([{";
 
-/// all valid single descriptors, in a fixed order (used by the validator's enumeration)
-pub fn alphabet() -> Vec<Tt> {
+/// all well-formed descriptors, in a fixed order (used by the validator's enumeration)
+pub fn alphabet(with_quote: bool) -> Vec<Tt> {
     let mut v = vec![
         Tt { kind: K_IDENT, ch: b'a', joint: false, keyword: false },
         Tt { kind: K_IDENT, ch: b's', joint: false, keyword: true },
@@ -45,28 +46,37 @@ pub fn alphabet() -> Vec<Tt> {
         v.push(Tt { kind: K_PUNCT, ch: p, joint: false, keyword: false });
         v.push(Tt { kind: K_PUNCT, ch: p, joint: true, keyword: false });
     }
+    if with_quote {
+        v.push(Tt { kind: K_PUNCT, ch: QUOTE, joint: false, keyword: false });
+        v.push(Tt { kind: K_PUNCT, ch: QUOTE, joint: true, keyword: false });
+    }
     v
 }
 
-pub fn valid_tt(t: &Tt) -> bool {
+pub fn valid_tt(t: &Tt, with_quote: bool) -> bool {
     match t.kind {
         K_IDENT => !t.joint && ((t.ch == b'a' && !t.keyword) || (t.ch == b's' && t.keyword)),
         K_LIT => t.ch == b'1' && !t.joint && !t.keyword,
         K_GROUP => GROUPS.contains(&t.ch) && !t.joint && !t.keyword,
-        K_PUNCT => PUNCTS.contains(&t.ch) && !t.keyword,
+        K_PUNCT => (PUNCTS.contains(&t.ch) || (with_quote && t.ch == QUOTE)) && !t.keyword,
         _ => false,
     }
 }
 
-/// is `ts` what the lexer can produce?
-pub fn valid_seq(ts: &[Tt]) -> bool {
+pub fn any_seq(ts: &[Tt]) -> bool {
+    ts.iter().all(|t| valid_tt(t, true))
+}
+
+/// is `ts` what the lexer produces from source text?
+pub fn lexer_seq(ts: &[Tt]) -> bool {
     for (i, t) in ts.iter().enumerate() {
-        if !valid_tt(t) {
+        if !valid_tt(t, false) {
             return false;
         }
-        if t.kind == K_PUNCT && t.joint {
-            let ok = i + 1 < ts.len() && ts[i + 1].kind == K_PUNCT && !ts[i + 1].joint && JOINT_PAIRS.contains(&(t.ch, ts[i + 1].ch));
-            if !ok {
+        if t.kind == K_PUNCT {
+            let next_is_punct = i + 1 < ts.len() && ts[i + 1].kind == K_PUNCT;
+            // Joint = written directly before another punctuation character; Alone before a punct = the user wrote a space
+            if t.joint && !next_is_punct {
                 return false;
             }
         }
